@@ -181,6 +181,12 @@ def run_case(case: dict) -> dict:
         if case.get("markup"):
             # holders as people write them: an ampersand, an e-mail address in angle brackets (tag-value knows no escaping)
             p = json.loads(json.dumps(p).replace(" Author", " Author & Sons <author@example.com>").replace("2020 Same", "2020 Same <same@example.org> & Co"))
+        if case.get("locale_c"):
+            # holders with letters outside ASCII; file names stay ASCII (in such a locale Python cannot even name the others)
+            p = json.loads(json.dumps(p).replace(" Author", " \u00c1uthor \u5c71\u7530"))
+            for f_ in p["files"]:
+                if not f_["pathstr"].isascii():
+                    case = dict(case, locale_c=False)
         if case.get("aggregate") and not p.get("tomls") and not p.get("dep5"):
             # one REUSE.toml table that is aggregated with what every file declares itself
             p["tomls"] = [{"dir": [], "dirchars": [], "srcstr": "REUSE.toml",
@@ -205,7 +211,10 @@ def run_case(case: dict) -> dict:
             out_file = d / "out.spdx"
             args += ["-o", str(out_file)]
         # the tool's own process pool cannot be started from a daemonic harness worker: real subprocess
-        r = core.run_reuse_subprocess(args) if case["mp"] else core.run_reuse(args)
+        # (some of those in an interpreter whose locale is not UTF-8: the document is UTF-8 all the same)
+        in_c = bool(case.get("locale_c")) and not m["faults"]       # (injected read faults live in this process only)
+        r = (core.run_reuse_subprocess(args, env=core.C_LOCALE_ENV if in_c else None) if case["mp"] or in_c
+             else core.run_reuse(args))
         projmodel.set_faults(())
         if r["exc"] or r["exit"] != 0:
             ev["crash"] = (r["exc"] or r["err"] or f"exit {r['exit']}")[-500:]
@@ -272,6 +281,7 @@ def run(ctx: core.Ctx) -> int:
     for k_, c_ in enumerate(cases):
         c_["markup"] = k_ % 3 == 1
         c_["aggregate"] = k_ % 4 == 2 and not c_["mp"]
+        c_["locale_c"] = k_ % 9 == 4
     events = ctx.pmap(run_case, cases, chunksize=8)
     for ev in events[:: max(1, len(events) // 3)][:3]:
         ctx.samples.append({"case": json.loads(ev["label"]), "concluded": ev["concluded"],
